@@ -222,7 +222,7 @@ class Gen:
         if k == 26:
             return f"PLAY {self.str(d)}"
         if k == 27:
-            return r.choice(["REM", "'"]) + r.choice([" hello", "", " IF X THEN", " *) x", ' a "quote', " RUN foo", "A:B"])
+            return r.choice(["REM", "'"]) + r.choice([" hello", "", " IF X THEN", " *) x", ' a "quote', " RUN foo", "A:B", " RUN ecb_hex", " see RUN ecb_point(x)"])
         if k == 28:
             return f"WIDTH {self.num(d)}"
         if k == 29:
